@@ -289,11 +289,14 @@ SPELLINGS = [
 LISTEN_TEXT = ["127.0.0.1", "::1", "0.0.0.0", "::", "", "192.0.2.5", "2001:db8::5"]
 
 
-def h_text(X, spellings, full=True):
+def h_text(X, spellings, full=True, quick=False):
     if full:
         lport, cport, mode_transport, transport, served = _common(X)
         which = X.choose("listen_host", LISTEN_TEXT)
     else:  # spelling sweep: one representative configuration, ports still symbolic
+        di = X.choose("dest", len(spellings))
+        if quick:
+            X.assume((di // 2) % 16 in (0, 5))
         lport, cport = X.int("listen_port", 1, 65535), X.int("connect_port", 1, 65535)
         mode_transport = transport = "tcp"
         served = True
@@ -310,7 +313,9 @@ def h_text(X, spellings, full=True):
     decoy = _Srv(_mode("tcp"), [("127.0.0.1", decoy_port)])
     order = X.choose("decoy", ["none", "before", "after"]) if full else "before"
     servers = [main] if order == "none" else ([decoy, main] if order == "before" else [main, decoy])
-    text, fam, val, cls = X.choose("dest", spellings)
+    if full:
+        di = X.choose("dest", len(spellings))
+    text, fam, val, cls = spellings[di]
     got = _run(servers, text, cport, transport)
     dest = ("name", val, text) if fam == "name" else (fam, val)
     must = _must_refuse(dest, hosts, cport == lport, served)
@@ -323,7 +328,10 @@ def h_text(X, spellings, full=True):
         X.reach("must-refuse")
         if mode_transport == "both":
             cls = "transport-both/" + cls
-        X.fail(f"C23/{cls}/{text}", f"destination {text!r} port=listen port, {transport} via mode transport {mode_transport!r}, "
+        rep = text
+        if not full:  # sweep: one key per spelling class, the spelling itself is in the message / witness
+            rep = ("mixed-case" if text.rstrip(".") != "localhost" else "lower-case") + ("+trailing-dot" if text.endswith(".") else "")
+        X.fail(f"C23/{cls}/{rep}", f"destination {text!r} port=listen port, {transport} via mode transport {mode_transport!r}, "
                f"listening on {which!r}: not refused", dest=text, listen=which)
 
 
@@ -340,8 +348,9 @@ def _case_spellings():
 def obligations(tier):
     stubs = ["Proxyserver.servers -> stub list", "ipaddress.ip_address -> shim for SymHost", "isinstance shim in ipaddress"]
     cases = _case_spellings()
-    if tier == "quick":  # every 16th case mask (with and without trailing dot); thorough: all 2^9 masks
-        cases = [c for i, c in enumerate(cases) if (i // 2) % 16 in (0, 5)]
+    ncases = len(cases)
+    if tier == "quick":  # every 16th case mask (with and without trailing dot); thorough: all 2^9 masks.  Same menu in both
+        ncases = sum(1 for i in range(len(cases)) if (i // 2) % 16 in (0, 5))  # tiers, pruned by assume => witnesses replay in either tier
     spell = SPELLINGS
     obs = [
         Symx("dest-v4-all", lambda X: h_sym(X, 4),
@@ -356,8 +365,8 @@ def obligations(tier):
                     f"listen address and a re-spelling of it, unrelated hosts) x {len(LISTEN_TEXT)} listen hosts x symbolic ports x transports x decoy position; "
                     "real string handling, no SymHost",
              encoded=ENCODED, must_reach=["decided", "refused", "allowed"], stubs=stubs[:1], parallel_depth=3),
-        Symx("localhost-case-sweep", lambda X: h_text(X, cases, full=False),
-             bounds=f"{len(cases)} spellings of localhost (upper/lower case masks over the 9 letters, with and without trailing dot) x listen host {{127.0.0.1, all interfaces}} "
+        Symx("localhost-case-sweep", lambda X: h_text(X, cases, full=False, quick=(tier == "quick")),
+             bounds=f"{ncases} spellings of localhost (upper/lower case masks over the 9 letters, with and without trailing dot) x listen host {{127.0.0.1, all interfaces}} "
                     "x symbolic listen/connect/decoy ports, tcp",
              encoded=ENCODED, must_reach=["decided", "refused", "allowed"], stubs=stubs[:1], parallel_depth=2),
     ]
